@@ -9,7 +9,8 @@ PROPERTY = "C08"
 LEVEL = "fault_enumeration"
 RULE = ("exception codes 0..255 x {read, write, write-multi} x {udp-rtu, tcp} x keep-alive x preceded by j in 0..R "
         "dropped transmissions x exception delivered promptly or half a timeout late x entry through the protocol-level "
-        "request and through read_sensor/write_setting('modbus-N'); complete enumeration; distinct = distinct "
+        "request and through read_sensor/write_setting('modbus-N'); as the second request on a kept-alive object (with and without "
+        "yielding in between); after lone fragments of every length; complete enumeration of the codes; distinct = distinct "
         "(transport, keep-alive, command kind, code, j, delay, entry) tuples")
 ASSUMPTIONS = ["reason texts are the standard Modbus exception names (table copied from the specification into refcodec)",
                "virtual clock: 'at once' means zero virtual time between delivery of the exception frame and the return"]
